@@ -182,6 +182,32 @@ def run(ctx):
             why = spec_on_impl(o)
             if why:
                 report(ctx, o, why)
+        al = [o for o in jp if o.get("jump_pred")]
+        if model_ok and al:
+            # the same single steps on the model: Next from the state (P, G', I = predecessor, start, limit)
+            body = ["From Coq Require Import ZArith List.", "From SX Require Import Model.RangeIter.", "Import ListNotations.",
+                    "Open Scope Z_scope.",
+                    "Definition step1 (c : Z * Z * Z * Z * Z) : Z := let '(p, g, i, s, l) := c in",
+                    "  match next {| itP := p; itG := g; itI := i; itStart := s; itLim := l; itStop := false |} with",
+                    "  | Some (it', true) => itI it' | Some (_, false) => 0 | None => -1 end.",
+                    "Definition J := Eval vm_compute in map step1 [",
+                    ";\n".join("(%s, %s, %s, %s, %d)" % (o["P"], o["G"], o["jump_pred"], o["jump_start"], o["n"]) for o in al),
+                    "].", "Print J."]
+            import re
+            vals = [int(v) for v in re.findall(r"-?\d+", ctx.parse_result(ctx.coq_eval("jumpcases", "\n".join(body)), "J"))]
+            if len(vals) != len(al):
+                raise verif.Broken("jump cases: the model evaluated %d of %d states" % (len(vals), len(al)))
+            for o, v in zip(al, vals):
+                got = 0 if o.get("jump_got") == "end" else int(o["jump_got"])
+                if v != got:
+                    ctx.broken.append(("correspondence: Next from the state (P=%s, G'=%s, I=%s, start=%s, limit=%d): the model %s, "
+                                       "the implementation %s" % (o["P"], o["G"], o["jump_pred"], o["jump_start"], o["n"],
+                                                                  "ends the walk" if v == 0 else "yields %d" % v,
+                                                                  "ends the walk" if got == 0 else "yields %d" % got), ""))
+                    break
+            ctx.cov["traces_validated_against_impl"] += len(al)
+            ctx.info.append("%d of these single steps (arbitrary start element, position on a low-bits alias of it) also evaluated on "
+                            "the model's Next inside Coq and compared" % len(al))
         ctx.info.append("%d single steps from the predecessor of n, n-1, 1 and a middle element (both ends of every table row, "
                         "2^32, 2^32-1, 2^31) and from elements that agree with a chosen start element in their low 8/16/24/31/32 bits: "
                         "the element must be yielded" % len(jp))
